@@ -27,11 +27,14 @@ VALUES = {
     'np2d': lambda: np.array([[1, 2], [3, 4], [5, 6]]),          # a 2-D array: its values are its rows
     'np0d': lambda: np.array(5),                                 # a 0-d array cannot be iterated: a single value
     'npdt': lambda: np.array(['2021-03-04T05:06:07.000000008', '2021-03-05'], dtype='datetime64[ns]'),
+    'tuple_f': lambda: (1.0, 1.0),                               # equal to tuple_rep element by element, but floats
+    'legacy_seq': lambda: LegacySeq([4, 5, 6]),                  # iterable through __len__/__getitem__ only
 }
 EXPANDED = {
     'int': [7], 'str': ['xy'], 'empty': [], 'one': [1], 'two': [1, 2], 'tuple_rep': [1, 1], 'range2': [0, 1],
     'nparr': [1, 2], 'none': [None], 'strs': ['p', 'qq'], 'nested': [[1, 2], 'ab'], 'np2d': [[1, 2], [3, 4], [5, 6]], 'np0d': [5],
     'npdt': ['dt:2021-03-04T05:06:07.000000008', 'dt:2021-03-05T00:00:00.000000000'],
+    'tuple_f': [1.0, 1.0], 'legacy_seq': [4, 5, 6],
 }
 NAMES = ['pa', 'pb', 'pc']
 STARTS = {
@@ -56,6 +59,40 @@ META = {
     'assumptions': ['collections are re-iterable (no one-shot generators), as the quantifier says',
                     'element equality after converting numpy scalars to Python scalars'],
 }
+
+
+class LegacySeq:
+    """A sequence in the old protocol: indexable and sized, no __iter__."""
+
+    def __init__(self, items):
+        self._items = list(items)
+
+    def __len__(self):
+        return len(self._items)
+
+    def __getitem__(self, i):
+        return self._items[i]      # IndexError ends the iteration
+
+
+def _kind(v):
+    """What kind of value this is (an equal value of another kind is not the declared value)."""
+    if isinstance(v, (bool, np.bool_)):
+        return 'bool'
+    if isinstance(v, (int, np.integer)):
+        return 'int'
+    if isinstance(v, (float, np.floating)):
+        return 'float'
+    if isinstance(v, np.datetime64) or (isinstance(v, str) and v.startswith('dt:')):
+        return 'dt'
+    if isinstance(v, str):
+        return 'str'
+    if v is None:
+        return 'none'
+    if isinstance(v, np.ndarray) and v.ndim == 0:
+        return _kind(v.item())
+    if isinstance(v, (list, tuple, np.ndarray)):
+        return ['seq'] + [_kind(x) for x in (v.tolist() if isinstance(v, np.ndarray) and v.dtype.kind != 'M' else v)]
+    return type(v).__name__
 
 
 def product(decl):
@@ -218,6 +255,12 @@ class Harness:
                     # the values of a 2-D array are its rows: each combination carries a row, not a re-made list
                     raise Violation(f'{what} of declaration {w.decl}: the value of {k} is a {type(v).__name__}, the '
                                     f'declared values are the rows of a 2-D array', expected='ndarray row', observed=repr(v))
+        if norm == exp:
+            gk = [{k: _kind(v) for k, v in d.items()} for d in got]
+            ek = [{k: _kind(v) for k, v in d.items()} for d in exp]
+            if gk != ek:
+                raise Violation(f'{what} of declaration {w.decl}: values equal the declared ones but are of another kind '
+                                f'(e.g. floats where ints were declared)', expected=ek[:6], observed=gk[:6])
         if norm != exp or any(list(d) != [n for n, _ in w.decl] for d in got):
             raise Violation(f'{what} of declaration {w.decl} differs from the Cartesian product (first-declared '
                             f'slowest, once each)', expected=exp[:12], observed=norm[:12])
@@ -352,7 +395,8 @@ def run(ctx):
         vals = ['int', 'str', 'empty', 'one', 'two', 'tuple_rep', 'range2', 'nparr', 'none', 'np2d', 'np0d', 'npdt']
         plan = [('empty', vals, 2), ('dict_ab', vals[:5], 2)]
     elif ctx.tier == 'quick':
-        vals = ['int', 'str', 'empty', 'one', 'two', 'tuple_rep', 'range2', 'nparr', 'none', 'np2d', 'np0d', 'npdt']
+        vals = ['int', 'str', 'empty', 'one', 'two', 'tuple_rep', 'range2', 'nparr', 'none', 'np2d', 'np0d', 'npdt', 'tuple_f',
+                'legacy_seq']
         plan = [('empty', vals, 3), ('dict_ab', vals[:5], 2), ('empty_dict', vals[:3], 1), ('dict_ba', vals[3:8], 2),
                 ('dict_special', vals[:5], 2)]
     else:
